@@ -27,14 +27,18 @@ SPEC = ['tcp']
 
 
 # ----------------------------------------------------------------------------------------------------------- scenarios
-def mk(rng, tag, total, mtu=1500, v=4, stack_sack=None, cc='', passive=False, a=None, run_ms=0, deadline_ms=15000, closing=True, **peer):
+def mk(rng, tag, total, mtu=1500, v=4, stack_sack=None, cc='', passive=False, a=None, run_ms=0, deadline_ms=15000, closing=True, chunked=False, **peer):
     p = dict(mss=0, ws=-1, sackperm=False, ts=False, synwnd=65535, wnd=65535, ack_every=1, delack_ms=40, delay_ms=0, sack='',
              quiet_ooo=False, fixed_edge=False, drop=[], drop_off=[], rules=[])
     p.update(peer)
     p['rules'] = [dict(r) for r in p['rules']]
+    if p['fixed_edge']:
+        # a window that closes as data arrives re-opens (as wide as before) unless the family scripts the re-opening itself
+        have = set(r['n'] for r in p['rules'] if r.get('on') == 'zero')
+        p['rules'] += [dict(on='zero', n=k, do='wnd', wnd=p['wnd'], count=1, after_ms=20) for k in range(1, 40) if k not in have]
     if closing:
         p['rules'].append(dict(on='fin', do='fin'))           # the peer closes once a's FIN arrived: a's reader sees EOS
-    app = dict(writes=tcplib.chunks(rng, total, max(total, 1)) if total > 3000 and rng.random() < 0.3 else [total], shutdown=True)
+    app = dict(writes=tcplib.chunks(rng, total, max(total, 1)) if chunked and total > 3000 and rng.random() < 0.5 else [total], shutdown=True)
     app.update(a or {})
     if passive:
         app['passive'] = True
@@ -57,7 +61,7 @@ def fam_mss(rng, i):
     if mtu >= 1280 and rng.random() < 0.2:
         v = 6
     ts = rng.random() < 0.5
-    sc = mk(rng, 'mss%d-m%d-mtu%d' % (i, mss, mtu), 1, mtu=mtu, v=v, passive=(i % 5 == 3), mss=mss, ts=ts, ws=rng.choice([-1, 0, 3]),
+    sc = mk(rng, 'mss%d-m%d-mtu%d' % (i, mss, mtu), 1, mtu=mtu, v=v, chunked=True, passive=(i % 5 == 3), mss=mss, ts=ts, ws=rng.choice([-1, 0, 3]),
             sackperm=rng.random() < 0.5, ack_every=rng.choice([1, 1, 2]), sack=rng.choice(['', 'valid']),
             drop=[rng.randrange(2, 9)] if rng.random() < 0.4 else [])
     e = eff_mss(sc)
@@ -157,11 +161,12 @@ def fam_multiloss(rng, i):
 
 
 def fam_lossinrec(rng, i):
-    # one loss in the first flight and one among the NEW segments sent while that loss is being recovered
+    # The first segment of a 10-segment flight is lost: nine duplicate ACKs, fast retransmit on the third, and the window
+    # inflation of the later ones lets segments 11.. out WHILE the loss is being recovered.  One of those is lost too:
+    # y = 11 is the first byte beyond the recovery point (the boundary of the RFC 6582 "recover" rule), y = 12, 13 lie beyond it.
     mss = rng.choice([200, 300])
-    x = rng.randrange(1, 5)
-    y = [11, 12, 11, 13][i % 4]
-    return mk(rng, 'lossinrec%d-lost%d-then-seg%d' % (i, x, y), 24 * mss, mss=mss, drop=[x], drop_off=[dict(off=(y - 1) * mss, times=1)],
+    y = [12, 11, 13, 12][i % 4]
+    return mk(rng, 'lossinrec%d-lost1-then-seg%d' % (i, y), 24 * mss, mss=mss, drop=[1], drop_off=[dict(off=(y - 1) * mss, times=1)],
               sackperm=i % 2 == 0, sack='valid' if i % 2 == 0 else '', wnd=40000, synwnd=40000)
 
 
@@ -212,7 +217,7 @@ def fam_bidi(rng, i):
         a['rcvbuf'] = rng.choice([500, 2000, 4096])                            # a's own window closes and re-opens as its reader drains
         a['read_start_ms'] = rng.choice([0, 100, 300])
     return mk(rng, 'bidi%d-p%d%s' % (i, peerbytes, '-finfirst' if finfirst else ''), rng.choice([100, 6000, 15000]), mss=mss, ws=rng.choice([-1, 0, 5]),
-              ts=rng.random() < 0.5, sackperm=rng.random() < 0.5, rules=rules, a=a, passive=(i % 5 == 4), closing=not finfirst,
+              ts=rng.random() < 0.5, sackperm=rng.random() < 0.5, rules=rules, a=a, passive=(i % 5 == 4), closing=not finfirst, chunked=True,
               wnd=20000, synwnd=20000, drop=[rng.randrange(1, 8)] if i % 4 == 2 else [])
 
 
@@ -261,6 +266,21 @@ def fam_random(rng, i):
         for k in range(3, 10):
             rules.append(dict(on='zero', n=k, do='wnd', wnd=60000, count=2, gap_ms=20, after_ms=20))
     sc['peer']['rules'] = rules + sc['peer']['rules']
+    return sc
+
+
+def regress_partial(k):
+    """Deterministic regression scenarios for fixed finding F27 (an ACK in the middle of a segment trimmed the queued segment
+    without advancing its sequence number: the remainder went out under the old number, then the connection live-locked):
+    the peer keeps only a prefix of one data segment and acknowledges exactly that; with duplicate ACKs for the segments that
+    follow (fast retransmit of the remainder) and without (the remainder comes back by timeout)."""
+    import random
+    rng = random.Random(2700 + k)
+    mss, seg, keep, quiet = [(400, 5, 1, False), (400, 3, 399, False), (200, 7, 100, True), (300, 1, 7, False), (536, 9, 535, True), (100, 2, 50, False)][k % 6]
+    sc = mk(rng, 'f27-partial-ack-%d-mss%d-seg%d-keep%d%s' % (k, mss, seg, keep, '-quiet' if quiet else ''), 18 * mss, stack_sack=(k % 2 == 0), mss=mss,
+            quiet_ooo=quiet, wnd=30000, synwnd=30000, rules=[dict(on='data', n=seg, do='partial', bytes=keep), dict(on='up', do='write', bytes=60)])
+    sc['seed'] = 2700 + k
+    sc['family'] = 'regress-f27'
     return sc
 
 
@@ -407,6 +427,23 @@ def raw_peer(ctx, props, n_quick, n_thorough):
             if not tot.get(key):
                 raise vlib.Inconclusive('raw peer vacuity (%s): in no scenario %s' % (p, txt))
     ctx.sample(dict(kind='rawpeer-scenario', scenario=scs[0]))
+    if 'C05' in props:
+        # regression for fixed finding F27, judged with the C01 clauses (the bytes on the wire) as well as the C05 ones
+        regs = [regress_partial(k) for k in range(ctx.pick(4, 6))]
+        rsegs, rstats, rrep = tcplib.run_pair(ctx, drv, regs, ['C01', 'C05'], name + '-f27', what='mid-segment ACK (regression of fixed finding F27, clauses C01+C05)',
+                                              classify=tcplib.classify_all, kind='rawpeer', judge_unfinished=True)
+        hit = 0
+        for sc, seg in zip(regs, rsegs):
+            st = trace_stats(sc, seg)
+            acks = set(e['ack'] for e in seg if e['ev'] == 'arrive' and e.get('to') == 'a' and 'S' not in e.get('flags', ''))
+            cuts = set(e['seq'] for e in seg if e['ev'] == 'emit' and e.get('e') == 'a' and e.get('len', 0) > 0) & acks
+            # the remainder of the partially acknowledged segment was really sent again, starting at the acknowledged byte
+            if st['partial_ack'] and any(e['ev'] == 'emit' and e.get('e') == 'a' and e.get('len', 0) > 0 and e['seq'] in cuts and e['seq'] % sc['peer']['mss'] != 1 for e in seg):
+                hit += 1
+        out['f27_regression'] = dict(scenarios=len(regs), remainder_retransmitted=hit, accepted=rstats['accepted'], reported=len(rrep))
+        if hit == 0:
+            raise vlib.Inconclusive('raw peer vacuity: no regression scenario produced a retransmission that starts in the middle of a segment')
+        out['f28_reproduced_this_run'] = 'F28' in ctx.known_hits
     selftest(ctx, props, scs, segs, per, rep)
     ctx.assumptions += ['raw peer: endpoint b is a script (reset.raw_b): the clauses of TraceTcp bind endpoint a only; synchronous hand-over (hook H6) makes log order causal order']
     return segs, stats
@@ -459,6 +496,11 @@ def selftest(ctx, props, scs, segs, per, reported):
             if cut is not None:
                 del b[cut]
                 bad.append(('rawpeer-fastretx-missing', b))
+                # ... and the switch that tolerates known finding F28 (no fast retransmit for a segment first sent DURING a
+                # recovery) must not excuse a missing fast retransmit for an ordinary segment
+                b2 = copy.deepcopy(b)
+                b2[0]['kf_f28'] = True
+                bad.append(('rawpeer-fastretx-missing-kf28-on', b2))
         # (2) a timeout retransmission 50 ms after the previous transmission
         i = next((i for i in clean if per[i]['timeout_runs'] > 0), None)
         if i is not None:
